@@ -145,7 +145,7 @@ static void step(void)
 
     /* ---- strings / buffers */
     case 10: if ((i = pick_kind(T_STR)) >= 0) { const char *w = word(); vh_op("str_append_from_ptr(#%d, %s)", i, vh_qs(w)); spif_str_append_from_ptr(pool[i].p, (spif_charptr_t) w); vh_count("fill", 1); } break;
-    case 11: if ((i = pick_kind(T_STR)) >= 0 && (j = pick_kind(T_STR)) >= 0 && i != j) { vh_op("str_append(#%d, #%d)", i, j); spif_str_append(pool[i].p, pool[j].p); vh_count("fill", 1); } break;
+    case 11: if ((i = pick_kind(T_STR)) >= 0 && (j = pick_kind(T_STR)) >= 0) { if (i == j) vh_count("self_append", 1); vh_op("str_append(#%d, #%d)", i, j); spif_str_append(pool[i].p, pool[j].p); vh_count("fill", 1); } break;
     case 12: if ((i = pick_kind(T_STR)) >= 0) { vh_op("str_done(#%d) then reuse", i); spif_str_done(pool[i].p);
                  if (spif_str_get_len(pool[i].p) != 0) vh_fail("done:str:not-empty", "done() left length %ld", (long) spif_str_get_len(pool[i].p));
                  { int g = (int) vh_below(10); if (g < 5) { spif_str_init_from_ptr(pool[i].p, (spif_charptr_t) word()); } else if (g < 8) { spif_str_append_from_ptr(pool[i].p, (spif_charptr_t) "re"); vh_count("done_reuse_without_reinit", 1); } else { spif_str_done(pool[i].p); vh_count("done_reuse_without_reinit", 1); } }
